@@ -8,6 +8,9 @@
 // that (wrongly) spreads a check and the action depending on it over two critical sections gets the other
 // operation squeezed in between, deterministically instead of once in a million runs.
 //
+// The accessor (VerifWithLock in the overlay hooks) unlocks and immediately re-locks the mutex once after the set-up, so
+// that the first woken waiter finds it taken, flags starvation and the FIFO hand-over is really in force.
+//
 // The order is a strong tendency, not a guarantee (it needs the goroutines to be scheduled within the waits); a
 // missed squeeze can only hide a defect, never invent one.
 package lockstep
@@ -18,7 +21,9 @@ import (
 )
 
 // Squeeze runs first and second as described. withLock must run its argument while holding the component's mutex.
-func Squeeze(withLock func(func()), first, second func()) {
+// It returns as soon as the mutex has been let go; the returned channel is closed when both functions have
+// returned (one of them may never do so if the component under test loses a wake-up).
+func Squeeze(withLock func(func()), first, second func()) <-chan struct{} {
 	var wg sync.WaitGroup
 	wg.Add(2)
 	withLock(func() {
@@ -31,5 +36,7 @@ func Squeeze(withLock func(func()), first, second func()) {
 		<-s2
 		time.Sleep(2500 * time.Microsecond)
 	})
-	wg.Wait()
+	done := make(chan struct{})
+	go func() { wg.Wait(); close(done) }()
+	return done
 }
